@@ -1,4 +1,123 @@
-(* C10 (stack and mlink parts).  Only statements, each closed by [exact] of a lemma proved elsewhere. *)
+(* C10 (stack and mlink parts) -- stack.Stack, mlink.List edited through cursors, mlink.Queue
+   preserve their abstract sequence.  Only statements, each closed by [exact] of a lemma proved
+   elsewhere.  The models (Stack/StackModel.v, Mlink/MlinkModel.v) are transcriptions of the Go
+   code whose conditions, pointer assignments, index arithmetic and call counts are regenerated
+   from the source (Gen/StackIdx.v, Gen/MlinkFacts.v, Gen/MlinkList.v, Gen/MlinkQueue.v); the
+   references are Mlink/MlinkSpec.v (list + cursor positions At i | Stale; FIFO list) and the
+   [sastep] part of Stack/StackModel.v (LIFO list).  Elements are any type T with its Go zero
+   value; Find/Each callbacks are any pure function T -> bool. *)
 From Coq Require Import ZArith List.
 Import ListNotations.
-From Mds Require Import Mlink.MlinkModel Mlink.MlinkSpec Stack.StackModel.
+From Mds Require Import Mlink.MlinkModel Mlink.MlinkSpec Mlink.MlinkBasics Mlink.MlinkChain
+  Mlink.MlinkProofs Mlink.MlinkQueueProofs Stack.StackModel Stack.StackProofs.
+
+(* ---- stack.Stack ---- *)
+
+(* For every history of Push/Add/IsEmpty/Clear/Top/Peek/Pop/Each/Len/Slice the slice model
+   returns exactly the outputs of the LIFO reference (newest first): same values, same ok flags,
+   the only panic is Peek of a negative offset, no loop runs out of fuel. *)
+Theorem C10_stack_lifo : forall (T : Type) (zero : T) (ops : list (sop T)),
+  srun T zero [] ops = sarun T zero [] ops.
+Proof. exact stack_lifo. Qed.
+Print Assumptions C10_stack_lifo.
+
+Example C10_stack_lifo_ex :
+  srun Z 0%Z [] [SPush Z 1%Z; SPush Z 2%Z; SPeek Z 1%Z; SPop Z; SEach Z (fun _ => true); SPeek Z (-1)%Z; SSlice Z]
+  = [TUnit Z; TUnit Z; TValBool Z 1%Z true; TValBool Z 2%Z true; TList Z [1%Z]; TPanic Z; TList Z [1%Z]].
+Proof. vm_compute. reflexivity. Qed.
+
+(* ---- mlink.List through any number of cursors ---- *)
+
+(* Refinement over whole histories: every output (values, flags, Each sequences, Len, panics) of
+   the heap model equals the output of the abstract semantics, in which contents are a list and
+   a cursor is At i or Stale, edited by the documented before/after pictures. *)
+Theorem C10_list_refinement : forall (T : Type) (zero : T) (ops : list (op T)),
+  run T zero (init T zero) ops = arun T zero (ainit T) ops.
+Proof. exact list_refinement. Qed.
+Print Assumptions C10_list_refinement.
+
+Example C10_list_refinement_ex :
+  run Z 0%Z (init Z 0%Z)
+    [OEnd; OAdd 0 [1;2;3]%Z; OAt 1; OAt 2; ORemove 1; OGet 1; OGet 2; OTruncate 1; OEnd; OAdd 3 [7]%Z; OEach (fun _ => true); OLen]
+  = [RUnit; RUnit; RUnit; RUnit; RVal 2%Z; RVal 3%Z; RPanic InvalidCursor; RUnit; RUnit; RUnit; RList [1;7]%Z; RInt 2%Z].
+Proof. vm_compute. reflexivity. Qed.
+
+(* Invariant of every reachable state, tied to the reference state [R (heap, preds) (list, positions)]:
+   there is a duplicate-free chain ch = 0 :: c from the sentinel to nil such that every cell of
+   the heap is on ch or self-linked (wf), the values along c are exactly the reference list, and
+   every cursor handed out has its pred inside the heap -- the chain cell number i when the
+   reference says At i, a self-linked cell when it says Stale. *)
+Theorem C10_list_invariant : forall (T : Type) (zero : T) (ops : list (op T)),
+  R T zero (run_state T zero (init T zero) ops) (arun_state T zero (ainit T) ops).
+Proof. exact reachable_R. Qed.
+Print Assumptions C10_list_invariant.
+
+(* No operation of any history hangs (OutOfFuel in a fuelled Go loop) or touches a dangling address. *)
+Theorem C10_list_never_hangs : forall (T : Type) (zero : T) (ops : list (op T)),
+  ~ In RHang (run T zero (init T zero) ops) /\ ~ In RBad (run T zero (init T zero) ops).
+Proof. exact never_hangs. Qed.
+Print Assumptions C10_list_never_hangs.
+
+(* After any history, every use (Get, Set, AtEnd, Next, Push, Add of at least one value, Remove,
+   Truncate) of a cursor the reference calls Stale panics "invalid cursor" and leaves the heap and
+   all cursors unchanged. *)
+Theorem C10_stale_cursor_panics : forall (T : Type) (zero : T) (ops : list (op T)) (k : nat) (o : op T),
+  nth_error (snd (arun_state T zero (ainit T) ops)) k = Some Stale -> uses_cursor T o k ->
+  step T zero (run_state T zero (init T zero) ops) o = (run_state T zero (init T zero) ops, RPanic InvalidCursor).
+Proof. exact stale_cursor_panics. Qed.
+Print Assumptions C10_stale_cursor_panics.
+
+Example C10_stale_cursor_panics_ex :
+  nth_error (snd (arun_state Z 0%Z (ainit Z) [OEnd; OAdd 0 [1;2]%Z; OAt 1; OAt 0; ORemove 2])) 1 = Some Stale
+  /\ uses_cursor Z (OTruncate 1) 1.
+Proof. split; vm_compute; reflexivity. Qed.
+
+(* The same at heap level, without any invariant: whenever a cursor's pred is self-linked. *)
+Theorem C10_stale_refuses : forall (T : Type) (zero : T) (h : heap T) (cs : list nat) (k a : nat) (o : op T),
+  nth_error cs k = Some a -> a < length h -> lnk T h a = Ptr a -> uses_cursor T o k ->
+  step T zero (h, cs) o = ((h, cs), RPanic InvalidCursor).
+Proof. exact stale_refuses. Qed.
+Print Assumptions C10_stale_refuses.
+
+Example C10_stale_refuses_ex :
+  let h := [(0, Ptr 2); (1, Ptr 1); (2, Nil)]%Z in
+  nth_error [1] 0 = Some 1 /\ 1 < length h /\ lnk Z h 1 = Ptr 1 /\ uses_cursor Z (OPush 0 5%Z) 0.
+Proof. vm_compute. repeat split; auto. Qed.
+
+(* F7, for the record: with Truncate as it was before repair e389bb4 (no checkValid), Truncate
+   through a cursor whose pred is self-linked never returns, whatever the fuel ... *)
+Theorem C10_F7_pinned_truncate_hangs : forall (T : Type) (zero : T) (h : heap T) (cs : list nat) (k a : nat),
+  nth_error cs k = Some a -> a < length h -> lnk T h a = Ptr a ->
+  step_pinned T zero (h, cs) (OTruncate k) = ((h, cs), RHang).
+Proof. exact pinned_truncate_hangs. Qed.
+Print Assumptions C10_F7_pinned_truncate_hangs.
+
+Theorem C10_F7_invalidate_spins : forall (T : Type) (zero : T) (h : heap T) (a : nat),
+  a < length h -> lnk T h a = Ptr a -> forall fuel p, invalidate T fuel (Ptr a) (h, p) = OutOfFuel.
+Proof. exact invalidate_self_spins. Qed.
+Print Assumptions C10_F7_invalidate_spins.
+
+(* ... and on the pre-fix witness (corpus/C10_mlink/f7_truncate_stale.in, line 1) the old code
+   hangs where the repaired code panics. *)
+Definition f7_witness : list (op Z) := [OEnd; OAdd 0 [1;2]%Z; OAt 1; OAt 0; ORemove 2; OTruncate 1].
+Theorem C10_F7_witness :
+  run_pinned Z 0%Z (init Z 0%Z) f7_witness = [RUnit; RUnit; RUnit; RUnit; RVal 1%Z; RHang] /\
+  run Z 0%Z (init Z 0%Z) f7_witness = [RUnit; RUnit; RUnit; RUnit; RVal 1%Z; RPanic InvalidCursor].
+Proof. split; vm_compute; reflexivity. Qed.
+Print Assumptions C10_F7_witness.
+
+(* ---- mlink.Queue ---- *)
+
+(* For every history of Add/Pop/Front/Peek/Each/Clear/Len/IsEmpty, from NewQueue() and from a
+   zero Queue, the outputs are those of the FIFO reference -- including Add after the queue was
+   emptied by Pop or Clear (the cached tail cursor is reset; M23). *)
+Theorem C10_queue_fifo : forall (T : Type) (zero : T) (ops : list (qop T)),
+  qrun T zero (new_queue T zero) ops = aqrun T zero [] ops /\
+  qrun T zero (zero_queue T zero) ops = aqrun T zero [] ops.
+Proof. exact queue_fifo. Qed.
+Print Assumptions C10_queue_fifo.
+
+Example C10_queue_fifo_ex :
+  qrun Z 0%Z (zero_queue Z 0%Z) [QAdd 1%Z; QPop; QAdd 2%Z; QAdd 3%Z; QPop; QPop; QPop; QAdd 4%Z; QFront; QLen]
+  = [RUnit; RValBool 1%Z true; RUnit; RUnit; RValBool 2%Z true; RValBool 3%Z true; RValBool 0%Z false; RUnit; RVal 4%Z; RInt 1%Z].
+Proof. vm_compute. reflexivity. Qed.
